@@ -30,13 +30,16 @@ package eth2wrap
 // the fallback group is consulted iff the primary round failed with an unavailability-class error.
 //@ func provide
 //@ props C19
-//@ callreq forkjoin.New: len(a3) == 2 && a3[0] == forkjoin.WithoutFailFast() && a3[1] == forkjoin.WithWorkers(len(inner(clients)))
-//@ callreq forkjoin.New: a1 == ctx
-//@ callreq fork: a1.client == inner(client)
+//@ ghost roundForks int
+//@ ghostcall forkjoin.New: roundForks = 0
+//@ ghostcall fork: roundForks = roundForks + 1
+//@ callreq forkjoin.New: len(a3) == 2 && a3[0] == forkjoin.WithoutFailFast() && a1 == ctx
+//@ callreq fork: roundForks < len(lastarg("runForkJoin", 1)) && a1.client == lastarg("runForkJoin", 1)[roundForks]
+//@ callreq join: roundForks == len(lastarg("runForkJoin", 1)) && lastarg("forkjoin.New", 3)[1] == forkjoin.WithWorkers(roundForks)
 //@ callreq bestSelector.Increment: inner(res).Err == nil && isSuccessFunc(inner(res).Output)
 //@ ensures ncalls(runForkJoin) == 1 || ncalls(runForkJoin) == 2
 //@ ensures ncalls(runForkJoin) == 2 <==> (err != nil && len(fallbacks) != 0 && (isTimeoutError(err) || isSyncingError(err) || isBadGateway(err)))
 //@ ensures ncalls(runForkJoin) == 1 ==> r0 == output && r1 == err
 //@ ensures ncalls(fork) == len(clients) + ite(ncalls(runForkJoin) == 2, len(fallbacks), 0)
-//@ loop 1 invariant ncalls(fork) == atentry(ncalls(fork)) + $i
-//@ loop 2 invariant true
+//@ loop 1 invariant ncalls(fork) == atentry(ncalls(fork)) + $i && roundForks == $i
+//@ loop 2 invariant roundForks == atentry(roundForks)
